@@ -30,6 +30,8 @@ def run_for(ctx, pid):
     behs = list(res.emitted)
     if pid == "C03":
         behs += focus_behaviours(ctx)
+    else:
+        behs += derive_behaviours(ctx)
     replay_list(ctx, behs, pid)
 
 
@@ -53,6 +55,18 @@ def focus_behaviours(ctx):
         d5 = rnd.sample(d5, min(len(d5), 400))
     behs += d5
     return behs
+
+
+def derive_behaviours(ctx):
+    """Every sequence over a small alphabet around replaced time axes (shifted / gapped, as Cadence.consolidate makes
+    them) and derived frames: create, replace the time axis, copy / pickle / mutate / slice / de-drift / integrate."""
+    depth = ctx.pick(3, 4)
+    cfg = tlc.cfg_with("FrameLife_Gen.cfg", {"MaxOps": str(depth), "MaxObjs": "3", "MaxCreate": "1", "Focus": '"derive"'}, ctx.outdir)
+    res = tlc.run(MODULE, cfg, ctx.outdir, workers=1, timeout=2400)
+    ctx.add_tlc(res, "FrameLife_Gen focus=derive depth %d (exhaustive)" % depth, "R-generate")
+    if not res.emitted:
+        raise RuntimeError("FrameLife_Gen focus=derive produced nothing")
+    return list(res.emitted)
 
 
 def replay_list(ctx, behs, pid):
